@@ -310,3 +310,42 @@ def run(prog: Program, res: Result) -> None:  # noqa: PLR0912, PLR0915
     from checks.C17 import check_path_tokens
 
     check_path_tokens(prog, res, "C11.R7")
+
+    res.rule("C11.R9", "children()/expressions() hand every child to the analyser under no condition other than its own presence (never under a test on another attribute)")
+    from checks.shared import check_unconditional_contributions
+
+    check_unconditional_contributions(prog, res, "C11.R9")
+
+    # ------------------------------------------------------------------ R8 attributes of an expression evaluated by another class
+    res.rule("C11.R8", "an attribute of an Expression object that some other class evaluates (`<x>.<attr>.evaluate[_async](…)` with <x> declared as that Expression class) is contributed by that class's children(): what a tag evaluates through a helper expression is visible to the analyser")
+    from sa.types import TypeApprox
+
+    TA = TypeApprox(prog)
+    expr_base = prog.cls("liquid2.expression.Expression")
+    n8 = 0
+    seen8: set[tuple[str, str, str]] = set()
+    for fi in sorted(prog.all_functions(), key=lambda f: (f.file, f.node.lineno)):
+        for c in ast.walk(fi.node):
+            if not (isinstance(c, ast.Call) and isinstance(c.func, ast.Attribute) and c.func.attr in ("evaluate", "evaluate_async") and isinstance(c.func.value, ast.Attribute)):
+                continue
+            holder, attr = c.func.value.value, c.func.value.attr
+            if isinstance(holder, ast.Name) and holder.id == "self":
+                continue  # the class's own attribute: R1 / R2
+            ht = TA.of(fi, holder)
+            hc = TA.class_of(fi, ht) if ht else None
+            if hc is None or not prog.is_subclass(hc, expr_base):
+                continue
+            key8 = (hc.full, attr, fi.qualname)
+            if key8 in seen8:
+                continue
+            seen8.add(key8)
+            n8 += 1
+            ch = prog.find_method(hc, "children")
+            site = f"{fi.file}:{c.lineno} {fi.qualname}"
+            what = f"{hc.name}.{attr} (evaluated by {fi.qualname}) is contributed by {hc.name}.children()"
+            contributed = ch is not None and any(is_self_attr(x, attr) for x in ast.walk(ch.node))
+            if contributed:
+                res.ok("C11.R8", site, what, f"{hc.name}.children() mentions self.{attr}")
+            else:
+                res.fail("C11.R8", file=ch.file if ch else hc.file, line=ch.node.lineno if ch else hc.node.lineno, qualname=f"{hc.name}.children", construct=f"{hc.name}.children() omits {attr}, which {fi.qualname} evaluates", message=f"{fi.qualname} evaluates `{norm(c.func.value)}` at run time but {hc.name}.children() does not contribute `{attr}`: variables and filters used there are looked up by the render and never reported by analyze()", what=what)
+    res.floor("C11.R8", "expression attributes evaluated by another class", n8, 2)
